@@ -47,6 +47,15 @@ func ExtActions(thorough bool) []*wire.N {
 		n.SetB("Note", Pat(ln, ln))
 		out = append(out, n)
 	}
+	// notes that end in zero bytes (indistinguishable from padding on the wire, but part of the
+	// value): the sizes are such that stripping the zeros would cross an 8-byte boundary
+	for _, z := range []int{1, 8, 10, 17} {
+		for _, lead := range []int{0, 2, 6} {
+			n := Action("nx_note", z+lead)
+			n.SetB("Note", append(Pat(lead, z), make([]byte, z)...))
+			out = append(out, n)
+		}
+	}
 	for cnt := 0; cnt <= 5; cnt++ {
 		n := Action("nx_dec_ttl_cnt_ids", cnt)
 		n.Set("controllers", uint64(cnt)).SetB("cntIDs", Pat(2*cnt, cnt))
@@ -223,7 +232,19 @@ func Controller(thorough bool, expired func() bool, level func(name string, comp
 			yield(GroupMod(c, t, Bucket(1, Action("act_output", 1)), Bucket(2, Action("act_group", 2), Action("nx_note", 3))))
 		}
 	}
+	// command values the specification does not define (the field is 16 bits wide; OpenFlow 1.5 gives
+	// 3 and 5 a meaning): the message must still be framed exactly
+	for _, c := range []uint64{3, 5, 0xffff} {
+		yield(GroupMod(c, 1))
+		yield(GroupMod(c, 1, Bucket(1, Action("act_output", 1))))
+		yield(GroupMod(c, 3, Bucket(1, Action("act_output", 1)), Bucket(2, Action("act_group", 2), Action("nx_note", 3)), Bucket(3)))
+	}
 	yield(PortMod())
+	// hardware addresses of other lengths than 6 (net.HardwareAddr admits them): the wire has room for
+	// the first six bytes, zero-filled; every other field stays where it belongs
+	for _, l := range []int{0, 4, 8, 20} {
+		yield(PortMod().SetB("HWAddr", Pat(l, 3)))
+	}
 	for _, t := range []uint64{0, 1, 2, 3, 4, 5} {
 		yield(MultipartRequest(t, nil))
 	}
@@ -347,6 +368,10 @@ func Controller(thorough bool, expired func() bool, level func(name string, comp
 		yield(GroupMod(0, 1, bl...))
 	}
 	yield(FlowMod(0, nil, Instr("instr_meter", 1), Instr("instr_apply_actions", 2, Action("act_output", 1)), Instr("instr_write_actions", 3, Action("act_group", 2)), Instr("instr_write_metadata", 4), Instr("instr_goto_table", 5)))
+	// the same match field more than once (the library encodes what it is given, in the order given)
+	yield(FlowMod(0, Match(mrep[0].Clone(), mrep[1].Clone(), mrep[0].Clone(), mrep[3].Clone()), Instr("instr_goto_table", 1)))
+	yield(FlowMod(0, Match(mrep[3].Clone(), mrep[1].Clone(), mrep[2].Clone(), mrep[1].Clone(), mrep[4].Clone(), mrep[2].Clone(), mrep[6].Clone()), Instr("instr_goto_table", 1)))
+	yield(MultipartRequest(1, Match(mrep[2].Clone(), mrep[0].Clone(), mrep[2].Clone(), mrep[5].Clone(), mrep[7].Clone())))
 	if done("L2b ordered triples over four size-distinct actions and lists of 4, 5, 8 distinct children in every container") {
 		return
 	}
